@@ -54,7 +54,7 @@ def check_titration(case, grid):
 
     def v(key, what, **kw):
         out.append({"key": key, "what": what, "case": dict(case, **kw)})
-    o = SP(seq)
+    o = core.sp(seq)
     if case.get("pI_first"):
         try:
             o.get_isoelectric_point()      # same object: its result is judged by the pI case, here it is only history
